@@ -32,7 +32,7 @@ CHECKS.update({
  "C15": dict(
     engine="cli_sim", level="exploration", design="DESIGN.md section 6",
     technique="deterministic simulation of the CLI process: in-memory VFS + stdout/stderr capture + entropy device, environment actor and I/O-fault injector at every call boundary; secret scan over every channel against the unfiltered API result",
-    text="Seeded search over --paranoia argument vectors (all five sub-commands, both networks, accounts, intervals incl. empty ones, stdout vs -f path states) run as module __main__ in-process, fault-free and under races / I/O errors / interrupts / process kills (whatever is on disk at the instant of the kill is scanned). On every channel the process wrote (stdout, each file, stderr of served runs; complete or partial) no secret string of the unfiltered API result (raw or JSON-escaped), no token decoding to a WIF/xprv payload, no 64-hex private scalar and no >=12-word run may occur, at any nesting depth; served output must equal the harness's white-list filter of the unfiltered API result.",
+    text="Seeded search over --paranoia argument vectors (all five sub-commands, both networks, accounts, intervals incl. empty ones, stdout vs -f path states) run as module __main__ in-process, fault-free and under races / I/O errors / interrupts / process kills (whatever is on disk at the instant of the kill is scanned). On every channel the process wrote (stdout, each file, stderr of served runs; complete or partial) no secret string of the unfiltered API result (raw or JSON-escaped), no token decoding to a WIF/xprv payload, no 64-hex private scalar and no >=12-word run may occur, at any nesting depth; every path, address, public key and extended public key of the harness's white-list filter of the unfiltered API result must be present, in place and identical in the served output (additional harmless fields do not alarm).",
     note="Trusted: harness Base58Check/Bech32 decoders and the reference filter; in-process main() with exit-status mapping; VFS fidelity (cross-checked against real subprocesses in C20). Secrets are taken from the library's own unfiltered output for the same request (whether that output is right is C06/C20)."),
  "C19": dict(
     engine="wire_sim", level="exploration", design="DESIGN.md section 7",
@@ -42,7 +42,7 @@ CHECKS.update({
  "C20": dict(
     engine="cli_sim", level="exploration", design="DESIGN.md section 6",
     technique="deterministic simulation of the CLI process: in-memory VFS with an adversarial environment actor and I/O-fault injector scheduled at every VFS/stdout call boundary; API twin as reference model; real-subprocess fidelity cross-check",
-    text="Seeded search over argument vectors (grammar over five sub-commands and global options with values on both sides of every validator bound and eleven -f path states) executed by main() in-process on an in-memory file system, in three separately run batches: fault-free, races (another process creates a file/dir/symlink at the target or removes/chmods its parent at a chosen call boundary) and I/O errors/interrupts/crashes (ENOSPC after k bytes, EIO on write/close, EMFILE/EACCES on open, EPIPE/EIO on stdout write or flush, KeyboardInterrupt, process killed at a call boundary with only the file system surviving). Oracle: refused (status != 0, no wallet data on stdout, no new file) or served (status 0, output identical to json.dumps of the library API result for the same secret/network/account/interval, library-filtered under --paranoia, BIP44-shaped rows) or help; always: no inode owned by someone else is modified. The hardened-address-index defect for END > 2^31 found by this check was first a known finding and is now repaired (ecd3cb0); no open finding.",
+    text="Seeded search over argument vectors (grammar over five sub-commands and global options with values on both sides of every validator bound and eleven -f path states) executed by main() in-process on an in-memory file system, in three separately run batches: fault-free, races (another process creates a file/dir/symlink at the target or removes/chmods its parent at a chosen call boundary) and I/O errors/interrupts/crashes (ENOSPC after k bytes, EIO on write/close, EMFILE/EACCES on open, EPIPE/EIO on stdout write or flush, KeyboardInterrupt, process killed at a call boundary with only the file system surviving). Oracle: refused (status != 0, no wallet data on stdout, no new file) or served (status 0, the channel carries exactly the JSON value of the library API result for the same secret/network/account/interval, library-filtered under --paranoia, BIP44-shaped rows) or help; always: no inode owned by someone else is modified. The hardened-address-index defect for END > 2^31 found by this check was first a known finding and is now repaired (ecd3cb0); no open finding.",
     note="Trusted: VFS models the Linux semantics the CLI can observe for a non-root user (fault-free subset cross-checked against real `python -m btc_hd_wallet` subprocesses: 8 vectors per quick run, 48 per thorough run); exit-status mapping of in-process main(); the API twin is the library itself (functional correctness of generate() is C06)."),
 })
 
